@@ -98,6 +98,13 @@ def subchecks(tier):
                         lambda a, spec, res: a.get("slot_interruptions", 0) >= 2, classes=classes, obs=True, log=True,
                         n={"quick": 3600, "thorough": 20000},
                         rule="capacitated pre-emptive slots, heavy load, long services (several slots); non-trivial = >= 2 slot interruptions"),
+        system_subcheck("preempt_combo", common.combo_profile("C12", more_weights={"prio_reroute": 0.0, "sched_reroute": 0.0, "cc_waiting": 0.3}),
+                        lambda spec: [ScheduleMonitor(spec)],
+                        lambda a, spec, res: a.get("episodes_at_doubly_preemptive_nodes", 0) >= 1, obs=True, log=True,
+                        classes=lambda a, spec, res: classes(a, spec, res) + [k for k in ("episodes_at_doubly_preemptive_nodes", "visits_interrupted_by_both_mechanisms") if a.get(k)],
+                        n={"quick": 3600, "thorough": 20000},
+                        rule="nodes with a pre-emptive schedule and pre-emptive priorities whose options may differ: a visit interrupted only by shift ends follows the "
+                             "schedule's option, one interrupted only by priorities follows the priority option (visits interrupted by both are skipped)"),
         system_subcheck("system", prof, lambda spec: [ScheduleMonitor(spec)], nontrivial, classes=classes, obs=True, log=True,
                         n={"quick": 7200, "thorough": 40000}, rule="scheduled / slotted nodes vs closed-form timetable"),
         system_subcheck("sched_blocked", common.region_profile("C12", excluded=(), more_weights={"sched_reroute": 0.35}),
